@@ -282,6 +282,31 @@ impl World {
 }
 
 
+static NOFILE_SAVED: std::sync::Mutex<Option<libc::rlimit>> = std::sync::Mutex::new(None);
+
+/// no file descriptor can be allocated in this process until `nofile_restore` (existing ones keep working)
+fn nofile_set() {
+    let mut g = NOFILE_SAVED.lock().unwrap_or_else(|e| e.into_inner());
+    if g.is_none() {
+        let mut cur = libc::rlimit { rlim_cur: 0, rlim_max: 0 };
+        unsafe {
+            libc::getrlimit(libc::RLIMIT_NOFILE, &mut cur);
+            let zero = libc::rlimit { rlim_cur: 0, rlim_max: cur.rlim_max };
+            libc::setrlimit(libc::RLIMIT_NOFILE, &zero);
+        }
+        *g = Some(cur);
+    }
+}
+
+fn nofile_restore() {
+    let mut g = NOFILE_SAVED.lock().unwrap_or_else(|e| e.into_inner());
+    if let Some(cur) = g.take() {
+        unsafe {
+            libc::setrlimit(libc::RLIMIT_NOFILE, &cur);
+        }
+    }
+}
+
 /// drop the guard of one in-flight connection of incarnation `wi` (`cid` = "*" for the oldest);
 /// `Some(crossed)` where `crossed` = the real `dec()` returned true (a wake-up was queued)
 fn finish_inflight(w: &mut World, wi: usize, cid: &str) -> Option<bool> {
@@ -309,6 +334,8 @@ struct Case {
     uds_paths: Vec<std::path::PathBuf>,
     // C03/C04 oracle state
     prev_op_was_quiet_poll: bool,
+    /// an `inject` act appeared (syntactically) in an env line or a poll schedule of this case
+    inject_seen: bool,
     paused_cmds: bool,
     stop_cmd: bool,
     exited: bool,
@@ -454,6 +481,7 @@ impl Case {
             yields: Rc::new(RefCell::new(0)),
             uds_paths,
             prev_op_was_quiet_poll: false,
+            inject_seen: false,
             paused_cmds: false,
             stop_cmd: false,
             exited: false,
@@ -1028,6 +1056,7 @@ fn run(a: &Args) {
                 if p == last && hb == last_hb {
                     same += 1;
                     if same >= 20 {
+                        nofile_restore();
                         if let Some(o) = &out {
                             let msg = "accept loop made no progress for 20 s (spinning): waiting connections are never dispatched";
                             let mut txt = format!("#T3 prop={wprop} case=@{p} {msg}\n");
@@ -1274,6 +1303,9 @@ fn run(a: &Args) {
                             }
                         }
                         ["env", acts] if valid_acts(acts) => {
+                            if acts.split(',').any(|a| a.starts_with("inject:")) {
+                                c.inject_seen = true;
+                            }
                             install_hook(&c.world, &c.yields, vec![], Rc::new(RefCell::new(vec![])));
                             for a in acts.split(',').filter(|a| !a.is_empty()) {
                                 if a == "pause" {
@@ -1287,7 +1319,16 @@ fn run(a: &Args) {
                             c.prev_op_was_quiet_poll = false;
                             c.snapshot()
                         }
+                        // `nofile=1`: the iteration runs while the process has NO file descriptor left (RLIMIT_NOFILE
+                        // lowered to 0 for its duration): every `accept(2)` REALLY fails with EMFILE — below any
+                        // injection hook. Only without a schedule, not quiet, and in cases without injected errors.
+                        ["poll", rest @ ..] if kv(rest, "nofile").is_some()
+                            && (kv(rest, "nofile") != Some("1") || kv(rest, "y").is_some() || kv(rest, "quiet").is_some() || c.inject_seen) => "bad-op".into(),
                         ["poll", rest @ ..] if kv(rest, "y").map_or(true, |y| y.split(';').all(valid_acts)) => {
+                            if kv(rest, "y").map_or(false, |y| y.contains("inject:")) {
+                                c.inject_seen = true;
+                            }
+                            let nofile = kv(rest, "nofile") == Some("1");
                             let chunks: Vec<Vec<String>> = kv(rest, "y")
                                 .map(|y| y.split(';').map(|ch| ch.split(',').filter(|a| !a.is_empty()).map(String::from).collect()).collect())
                                 .unwrap_or_default();
@@ -1317,7 +1358,12 @@ fn run(a: &Args) {
                             // code under test woke the accept thread (or a listener is ready), else it times out
                             let quiet_poll = kv(rest, "quiet") == Some("1");
                             let queued_before = c.world.borrow().waker.queued();
+                            if nofile {
+                                c.world.borrow_mut().any_inject = true;
+                                nofile_set();
+                            }
                             let r = catch(std::panic::AssertUnwindSafe(|| if quiet_poll { c.driver.step_quiet(Duration::from_millis(400)) } else { c.driver.step() }));
+                            nofile_restore();
                             if quiet_poll {
                                 if let Ok(rep) = &r {
                                     if queued_before > 0 && !rep.events.contains(&WAKER) {
@@ -1971,6 +2017,27 @@ fn gen(a: &Args) {
         writeln!(w, "poll").unwrap();
         writeln!(w, "poll").unwrap();
         writeln!(w, "poll").unwrap();
+    }
+    if matches!(prop, "C05" | "C03") {
+        // the process REALLY runs out of file descriptors (RLIMIT_NOFILE lowered for one iteration): accept(2) itself
+        // fails with EMFILE — the listener backs off and the waiting connections are served once the shortage is over
+        // (seed12 C05-23 turned the kernel's EMFILE / ENFILE into WouldBlock below the injection hook)
+        let scripts: [(&str, &[&str]); 4] = [
+            ("tcp", &["connect 0", "poll nofile=1", "poll", "env advance:600", "poll", "poll", "poll"]),
+            ("tcp,tcp", &["connect 1", "connect 0", "connect 1", "poll nofile=1", "env advance:300", "poll", "connect 0", "env advance:300", "poll", "poll", "poll"]),
+            ("uds,tcp", &["connect 0", "poll", "connect 0", "connect 1", "poll nofile=1", "poll nofile=1", "env advance:501", "poll", "poll", "env recv:0", "poll"]),
+            ("tcp", &["connect 0", "poll nofile=1", "env pause", "poll", "env advance:600", "poll", "env resume", "poll", "poll", "poll"]),
+        ];
+        for (i, (ls, ops)) in scripts.iter().enumerate() {
+            writeln!(w, "case real-emfile-{i} workers=2 limit=2 listeners={ls}").unwrap();
+            for l in ops.iter() {
+                writeln!(w, "{l}").unwrap();
+            }
+        }
+        writeln!(w, "case real-emfile-malformed workers=1 limit=1 listeners=tcp").unwrap();
+        for l in ["poll nofile=2", "poll nofile=1 quiet=1", "poll nofile=1 y=connect:0", "env inject:0:EMFILE", "poll nofile=1", "poll"] {
+            writeln!(w, "{l}").unwrap();
+        }
     }
     if matches!(prop, "C06" | "C05" | "C03" | "C08" | "C01") {
         // a command handed to `WakerQueue::wake` while the queue's mutex is busy still wakes the accept thread
